@@ -419,11 +419,65 @@ def panics_family(run, gv, alpha, total, label):
     return hits
 
 
+def _file_lines(gv, d, texts, bom):
+    """write each text (optionally behind a byte order mark) to d/<i>.go and parse it through gosyn::parse_file"""
+    os.makedirs(d, exist_ok=True)
+    paths = []
+    for i, t in enumerate(texts):
+        pth = os.path.join(d, "%d.go" % i)
+        with open(pth, "wb") as f:
+            f.write((b"\xef\xbb\xbf" if bom else b"") + t.encode("utf-8"))
+        paths.append(pth)
+    out = vlib.run_records(gv, "file", paths)
+    return [re.sub(r" ?path=\S*", "", ln) for ln in out]
+
+
+def bom_files_family(run, gv, maxlen):
+    """the scanner's other constructor (from_file: read, strip a byte order mark, build the same tables):
+    every string of the utf8 alphabet up to maxlen as a variable initialiser in a file with and without a
+    byte order mark, with the assertion compiled in; the two must parse alike and neither may panic"""
+    import shutil
+    total = total_upto(len(ALPHABETS["utf8"]), maxlen)
+    texts = ["package p; var _ = " + decode(ALPHABETS["utf8"], i) for i in range(total)]
+    base = os.path.join(vlib.WORK, "c17files")
+    shutil.rmtree(base, ignore_errors=True)
+    try:
+        plain = _file_lines(gv, os.path.join(base, "plain"), texts, False)
+        bom = _file_lines(gv, os.path.join(base, "bom"), texts, True)
+    finally:
+        shutil.rmtree(base, ignore_errors=True)
+    bad = 0
+    for t, a, b in zip(texts, plain, bom):
+        msg = None
+        if "PANIC" in a or "PANIC" in b:
+            msg = "panic while parsing the file: " + (b if "PANIC" in b else a)[:200]
+        elif a != b:
+            msg = "a file with a byte order mark parses differently from the same file without it"
+        if msg:
+            bad += 1
+            if bad <= 3:
+                run.violation({"kind": "file", "family": "F-utf8-files", "file_text": t, "bom": "PANIC" in b or a != b, "impl": msg,
+                               "plain": a[:300], "with_bom": b[:300]})
+    run.cov["evaluations"] += 2 * total
+    run.extra.setdefault("families", []).append({"family": "F-utf8-files (parse_file, with and without BOM)", "inputs": total,
+                                                  "executions": 2 * total, "exhaustive": True, "failures": bad})
+
+
 def check_c17(run, replay):
     run.trusted = vlib.BASE_TRUST + ["the cfg(gosyn_verif) assertion std::str::from_utf8(part).is_ok() in next_nstr"]
     gv, gm, gvd = prepare(run, debug=True)
     if replay:
         obj = json.load(open(replay))
+        if "file_text" in obj:
+            import shutil
+            base = os.path.join(vlib.WORK, "c17replay")
+            a = _file_lines(gv, os.path.join(base, "plain"), [obj["file_text"]], False)[0]
+            b = _file_lines(gv, os.path.join(base, "bom"), [obj["file_text"]], True)[0]
+            shutil.rmtree(base, ignore_errors=True)
+            print("file text: %r\nplain : %s\nbom   : %s" % (obj["file_text"], a[:300], b[:300]))
+            if "PANIC" in a or "PANIC" in b or a != b:
+                run.violation(dict(obj, replayed=True))
+            return
         if "input" in obj:
             rc, out, err = vlib.sh([gv, "outcome"], input=vlib.frame([obj["input"]]))
             print("input: %r\nimpl : %s" % (obj["input"], out.strip()))
@@ -442,6 +496,7 @@ def check_c17(run, replay):
     enum_family(run, gv, gm, "utf8", "bare", "toks", total, "F-utf8:utf8:bare")
     panics_family(run, gv, "utf8", total, "F-utf8-panics-release")
     panics_family(run, gvd, "utf8", total_upto(len(ALPHABETS["utf8"]), maxlen - 1), "F-utf8-panics-debug")
+    bom_files_family(run, gv, 3 if run.tier == "quick" else 4)
     run.cov["distinct_nontrivial"] = sum(1 for i in range(min(total, 200000)) if any(ord(c) > 127 for c in decode(ALPHABETS["utf8"], i)))
     run.cov["rule"] = ("exhaustive: every string of length <= %d over 1-, 2-, 3- and 4-byte characters, operator characters, digits, quotes, "
                        "blank and newline; scanned alone (crate vs extracted model) and parsed as a variable initialiser and as a statement "
